@@ -2132,6 +2132,13 @@ class OpHarness:
         hname = ("on_next", "on_error", "on_completed")[slot]
         uid = f"{c.uid}/{source}.{hname}"
         self.step_uid = uid
+        if h is None:
+            if slot == 1:
+                # Observable.subscribe's default on_error raises the error: it escapes into the source that reported it (C09)
+                self.fail(ctx, uid + "/subscribes-its-source-with-an-on_error-handler", "the source is subscribed without an on_error handler: its error is raised back into it")
+                raise PathEnd()
+            from .values import Native as _Native
+            h = _Native("no-handler-given", lambda it_, a, k: None)
         self.audit_cells(h, uid)
         self.havoc(it, ctx, cells_env, s)
         # effective invariant: done(s) \/ inv  -- after the operator terminated downstream nothing it
@@ -2685,7 +2692,9 @@ class OpHarness:
         if r is not None:
             for src, hs in r[4].items():
                 for i, h in enumerate(hs):
-                    if h is not None:
+                    # a source subscribed WITHOUT a handler for one of its notifications still sends it: the step is then "nothing happens" (or, for
+                    # a missing on_error, the default handler that raises) - and must refine the spec's step all the same
+                    if h is not None or any(x is not None for x in hs):
                         ctx.handler_slots.append((src, i))
 
     def _collect(self, paths):
